@@ -51,6 +51,12 @@ def run(ctx):
             p = gen_spec.gen_pars(rng, cfg['init'], cfg['bounds'], cfg['par_names'])
             if float(np.min(np.asarray(m.expected_actualdata(np.asarray(p))))) > 0.5: break
         else: p = cfg['init']
+        # regime boundaries on purpose: one interpolated parameter exactly on a breakpoint (keeps the rates positive)
+        alpha_names = sorted({md['name'] for c in spec['channels'] for sm in c['samples'] for md in sm['modifiers'] if md['type'] in ('normsys', 'histosys')})
+        alpha_idx = [k for k, nm in enumerate(cfg['par_names']) if nm in alpha_names]
+        if alpha_idx and i % 2 == 0:
+            k = rng.choice(alpha_idx); q = list(p); q[k] = rng.choice([1.0, -1.0, 1.0, -1.0, 0.0])
+            if float(np.min(np.asarray(m.expected_actualdata(np.asarray(q))))) > 0.5: p = q
         main, aux = gen_data(rng, m, p); data = main + aux
         st = enga.settings(histo, norm)
         g_model = model_grad(lean, spec, st, p, data)
@@ -58,13 +64,12 @@ def run(ctx):
         if g_model is None:
             ctx.disagree('grad.build', {'spec': spec}, 'error', None); continue
         fixed = [rng.random() < 0.25 for _ in p]
+        if i % 4 == 1 and len(p) >= 2: fixed = [False] * len(p); fixed[rng.randrange(1, len(p))] = True   # a mask that is not a leading prefix
         fixed_vals = [(k, p[k]) for k, f in enumerate(fixed) if f]
         var_idx = [k for k, f in enumerate(fixed) if not f]
         at_kink = [k for k, (x, nm) in enumerate(zip(p, cfg['par_names'])) if x == 0.0]
         bk = backends[(i + ctx.seed) % 3] if not ctx.thorough else None
         for b in ([bk] if bk else backends):
-            if b == 'jax' and not ctx.thorough and i % 3 != 0:
-                b = 'pytorch'
             pyhf.set_backend(b)
             tl = pyhf.tensorlib
             mle = importlib.import_module('pyhf.infer.mle')
